@@ -23,6 +23,7 @@ type Peer struct {
 	Inbound  bool
 	mu       sync.Mutex
 	synced   bool
+	resyncs  uint64 // number of resync requests, see markSynced
 	err      error
 }
 
@@ -67,10 +68,34 @@ func (p *Peer) Synced() bool {
 	return p.synced
 }
 
-func (p *Peer) setSynced(synced bool) {
+// requestResync marks the peer as unsynced and reports whether it was synced
+// before. The request is counted, so that a sync round that started before it
+// cannot mark the peer as synced afterwards.
+func (p *Peer) requestResync() bool {
 	p.mu.Lock()
 	defer p.mu.Unlock()
-	p.synced = synced
+	wasSynced := p.synced
+	p.synced = false
+	p.resyncs++
+	return wasSynced
+}
+
+// resyncCount returns the number of resync requests so far.
+func (p *Peer) resyncCount() uint64 {
+	p.mu.Lock()
+	defer p.mu.Unlock()
+	return p.resyncs
+}
+
+// markSynced marks the peer as synced, unless a resync was requested since
+// count was read: what the peer told us in the meantime is newer than what
+// the finished round has synced.
+func (p *Peer) markSynced(count uint64) {
+	p.mu.Lock()
+	defer p.mu.Unlock()
+	if p.resyncs == count {
+		p.synced = true
+	}
 }
 
 // Close closes the peer's connection.
